@@ -42,6 +42,7 @@ type pipePeer struct {
 	maxLive  int32
 	delay    int // per-exchange random delay (microseconds, upper bound)
 	rnd      *rand.Rand
+	slowDial time.Duration // a failing dial takes this long to fail (a waiter it was made for may have given up by then)
 }
 
 // liveConn tells the peer when the client closes its end.
@@ -80,6 +81,9 @@ func (p *pipePeer) DialConnection(nw, address string, timeout time.Duration, tls
 	if p.next < len(p.faults) && p.faults[p.next] == "dialerr" {
 		p.next++
 		p.mu.Unlock()
+		if p.slowDial > 0 {
+			time.Sleep(p.slowDial)
+		}
 		return nil, errors.New("scripted dial error")
 	}
 	p.mu.Unlock()
@@ -203,6 +207,9 @@ func init() {
 			ymode := 0
 			if len(in) > 6 {
 				ymode = in.N(6)
+			}
+			if len(in) > 7 {
+				peer.slowDial = time.Duration(in.N(7)) * time.Millisecond
 			}
 			var ymu sync.Mutex
 			yr := rand.New(rand.NewSource(int64(in.N(0)) + 13))
@@ -413,6 +420,13 @@ func init() {
 				for _, mc := range []int{1, 2} {
 					t.Do(In{Nn(ym), Nn(3), Nn(12), Nn(mc), Nn(1), S("ok"), Nn(ym)}, true)
 					t.Do(In{Nn(ym + 10), Nn(3), Nn(8), Nn(mc), Nn(1), S("ok,okclose,ok,ok,closebeforefirst,ok,dialerr,ok,silentclose,ok,ok,closemidbody"), Nn(ym)}, true)
+				}
+			}
+			// directed: a dial made for a queued caller fails only after that caller's wait has timed out (400 ms)
+			for sd := 1; sd <= 3; sd++ {
+				for _, first := range []string{"closemidbody", "closebeforefirst", "okclose", "silentclose"} {
+					t.Do(In{Nn(sd), Nn(2), Nn(1), Nn(1), Nn(1), S(first + ",dialerr,ok,ok"), Nn(0), Nn(470)}, true)
+					t.Do(In{Nn(sd + 4), Nn(3), Nn(2), Nn(1), Nn(1), S("ok," + first + ",dialerr,ok,dialerr"), Nn(0), Nn(470)}, true)
 				}
 			}
 			for i := 0; i < t.Scale(120, 3000); i++ {
